@@ -367,16 +367,16 @@ class ParseContext:
 
 
 def _parse_context() -> ParseContext:
-  return _PARSE_CONTEXTS[-1]
+  return _PARSE_CONTEXTS.stack[-1]
 
 
 @contextlib.contextmanager
 def _parse_scope(import_manager=None):
-  _PARSE_CONTEXTS.append(ParseContext(import_manager))
+  _PARSE_CONTEXTS.stack.append(ParseContext(import_manager))
   try:
     yield _parse_context()
   finally:
-    _PARSE_CONTEXTS.pop()
+    _PARSE_CONTEXTS.stack.pop()
 
 
 # Maintains the registry of configurable functions and classes.
@@ -423,7 +423,24 @@ _INTERACTIVE_MODE = False
 _CONSTANTS = selector_map.SelectorMap()
 
 # Parse contexts, providing file-isolated import/symbol tables.
-_PARSE_CONTEXTS = [ParseContext()]
+
+
+class _ParseContextStack(threading.local):
+  """The stack of active parse contexts, private to each thread.
+
+  Parsing (and generating config strings) in one thread must not change how
+  selectors are resolved by Gin API calls made concurrently in another thread.
+  """
+
+  def __init__(self):
+    super().__init__()
+    self.stack = [ParseContext()]
+
+  def __len__(self):
+    return len(self.stack)
+
+
+_PARSE_CONTEXTS = _ParseContextStack()
 
 # Keeps track of singletons created via the singleton configurable.
 _SINGLETONS = {}
